@@ -39,10 +39,20 @@ var ops = map[OpCode]OpFunc{
 	},
 
 	// Shift
-	"<<": func(left, right float64) float64 { return float64(int64(left) << int64(right)) },
-	">>": func(left, right float64) float64 { return float64(int64(left) >> int64(right)) },
-	"&":  func(left, right float64) float64 { return float64(int64(left) & int64(right)) },
-	"|":  func(left, right float64) float64 { return float64(int64(left) | int64(right)) },
+	"<<": func(left, right float64) float64 {
+		if int64(right) < 0 { // a negative shift count is undefined (and would panic)
+			return math.NaN()
+		}
+		return float64(int64(left) << int64(right))
+	},
+	">>": func(left, right float64) float64 {
+		if int64(right) < 0 {
+			return math.NaN()
+		}
+		return float64(int64(left) >> int64(right))
+	},
+	"&": func(left, right float64) float64 { return float64(int64(left) & int64(right)) },
+	"|": func(left, right float64) float64 { return float64(int64(left) | int64(right)) },
 
 	// Comparisons
 	"<":  func(left, right float64) float64 { return conditionalOp(left < right) },
